@@ -21,7 +21,7 @@ META = {
                    'values on every path. Base case: fresh explainer with a growing label set.',
     'bounds': {
         'quick': {'d': '1..3', 'q': '1..2', 'm': '1..2', 'labels': '1..2 (+ growing {a} -> {a,b})', 'modes': 'static,dynamic'},
-        'thorough': {'d': '1..4', 'q': '1..2', 'm': '1..3', 'labels': '1..3'},
+        'thorough': {'d': '1..4', 'q': '1..3', 'm': '1..3', 'labels': '1..3', 'paths per configuration': '<= 30000'},
     },
     'outside': ['floating-point rounding', 'sizes beyond the bounds', 'NumPy-scalar model outputs in the normalised marginal '
                 'prediction (zero-sum behaviour by numeric type is C12)', 'tree imputer'],
@@ -48,8 +48,8 @@ def configs(tier):
         k.setdefault('_cost', _cost(k))
         if k not in cfgs:
             cfgs.append(k)
-    dmax, qmax, mmax = (3, 2, 2) if tier == 'quick' else (4, 2, 3)
-    cap = 200 if tier == 'quick' else 3000
+    dmax, qmax, mmax = (3, 2, 2) if tier == 'quick' else (4, 3, 3)
+    cap = 200 if tier == 'quick' else 30000
     for mode in ('static', 'dynamic'):
         for imp in ('joint', 'product', 'default'):
             for d in range(1, dmax + 1):
@@ -70,6 +70,9 @@ def configs(tier):
         add(d=2, q=1, m=2, mode=mode, imputer='joint', storage='geometric', names='int')
         add(d=2, q=1, m=2, mode=mode, imputer='joint', storage='uniform', names='float')
         add(d=2, q=1, m=1, mode=mode, imputer='joint', storage='batch', partial_labels=True, labels=2)
+        add(d=2, q=1, m=1, mode=mode, imputer='joint', storage='batch', swap_labels=True, labels=2)
+        add(d=2, q=3, m=1, mode=mode, imputer='default', storage='batch')
+        add(d=2, q=2, m=1, mode=mode, imputer='joint', storage='batch', memoise=True)
         add(group='grow', d=2, q=1, mode=mode, imputer='joint', storage='batch')
         add(d=2, q=2, m=2, mode=mode, imputer='joint', storage='batch', labels=2, varlabels=True, _cost=4000)
         add(d=1, q=3, m=2, mode=mode, imputer='joint', storage='batch', labels=2, varlabels=True, _cost=500)
@@ -192,6 +195,9 @@ def _step(env, cfg):
         del mv.tracked_value['b']
         mv._tracked_keys.discard('b')
         del pre['mpred']['b']
+    if cfg.get('swap_labels'):
+        from .C01 import _swap_label
+        _swap_label(env, ex, pre)
     N = pre['N']
     pre_vals = {'imp': {f: (pre['imp'][f]['val'], N) for f in names},
                 'var': {f: (pre['var'][f]['val'], N) for f in names},
@@ -202,6 +208,7 @@ def _step(env, cfg):
     ret = guarded(env, 'explain_one', b['ex'].explain_one, b['x'], b['y'])
     _reference_and_claims(env, b, pre_vals, b['x'], b['y'])
     env.claim('returns_importance_values', And(*[eq(ret[f], ex.importance_values[f]) for f in names]))
+    env.claim('model_outputs_not_modified_by_the_library', b['model'].outputs_intact())
     if env.mode == 'sym' and env.stats.vacuity_witnesses < 2:
         env.witness()
 
